@@ -7,6 +7,7 @@ import (
 	"fmt"
 	"math"
 	"math/rand"
+	"regexp"
 	"runtime/debug"
 	"strings"
 	"sync"
@@ -157,6 +158,42 @@ func geomOf(g *d2graph.Graph) tr.M {
 			m["ipos"] = *o.IconPosition
 			m["iside"], _ = sideOf(*o.IconPosition)
 		}
+		// grid settings (C22)
+		m["gridRows"], m["gridCols"], m["rowsFirst"], m["gg"], m["vg"], m["hg"] = 0, 0, 0, -1, -1, -1
+		atoi := func(sc *d2graph.Scalar) int {
+			v := -1
+			if sc != nil {
+				fmt.Sscanf(sc.Value, "%d", &v)
+			}
+			return v
+		}
+		if o.GridRows != nil {
+			m["gridRows"] = atoi(o.GridRows)
+		}
+		if o.GridColumns != nil {
+			m["gridCols"] = atoi(o.GridColumns)
+		}
+		if o.GridRows != nil && o.GridColumns != nil && o.GridRows.MapKey != nil && o.GridColumns.MapKey != nil {
+			m["rowsFirst"] = tr.B(o.GridRows.MapKey.Range.Before(o.GridColumns.MapKey.Range))
+		}
+		m["gg"], m["vg"], m["hg"] = atoi(o.GridGap), atoi(o.VerticalGap), atoi(o.HorizontalGap)
+		// top-level ancestor (C24) and the actor an object of a sequence diagram belongs to (C23)
+		top := o
+		for top.Parent != nil && top.Parent != g.Root {
+			top = top.Parent
+		}
+		m["top"] = idx[top]
+		m["actor"], m["seq"], m["isActor"] = 0, 0, 0
+		for a := o; a.Parent != nil; a = a.Parent {
+			if a.Parent.Shape.Value == d2target.ShapeSequenceDiagram {
+				m["seq"] = idx[a.Parent]
+				if reActor.MatchString(a.ID) {
+					m["actor"] = idx[a]
+					m["isActor"] = tr.B(a == o)
+				}
+				break
+			}
+		}
 		m["innerW"], m["innerH"] = 0, 0
 		if o.Box != nil && o.TopLeft != nil && finite(o.Width, o.Height) == 1 {
 			func() {
@@ -190,6 +227,8 @@ func geomOf(g *d2graph.Graph) tr.M {
 	}
 	return tr.M{"objs": objs, "edges": edges, "pad": label.PADDING, "iconSize": d2target.MAX_ICON_SIZE, "threeD": d2target.THREE_DEE_OFFSET, "multiple": d2target.MULTIPLE_OFFSET}
 }
+
+var reActor = regexp.MustCompile(`^p\d+$`) // the generator's naming convention for sequence-diagram actors
 
 // sideOf splits a label/icon position such as OUTSIDE_TOP_CENTER into the side it is outside of
 // ("" when inside or on the border) and its alignment along that side.
